@@ -31,7 +31,7 @@
 (*  - p.n: p must denote a namespace alias; n is looked up among the       *)
 (*    declarations of the aliased file only.                               *)
 (* One traversal renders the text and computes the verdict of every use,   *)
-(* so byte offsets of expected diagnostics agree with the text by          *)
+(* so positions of expected diagnostics agree with the text by             *)
 (* construction.  Files are emitted as sequences of lines (the driver      *)
 (* joins them with "\n"): TLC interns every string it builds.              *)
 (***************************************************************************)
@@ -111,8 +111,12 @@ Tainted(env, n) ==
 
 \* ---------------------------------------------------------------- rendering + verdicts in one walk
 Put(st, line) == [st EXCEPT !.lines = Append(@, line), !.off = @ + Len(line) + 1]
-\* a position: byte range in the file and, equivalently, line / column (1-based) / length
-Pos(C, st, s, e) == [file |-> C.F.name \o ".abra", start |-> s, end |-> e,
+\* a position: byte range in the file and, equivalently, line / column (1-based) / length; rendered diagnostics
+\* name a file by the last component of its path
+RECURSIVE BaseFrom(_, _)
+BaseFrom(s, i) == IF i = 0 THEN s ELSE IF SubSeq(s, i, i) = "/" THEN SubSeq(s, i + 1, Len(s)) ELSE BaseFrom(s, i - 1)
+BaseOf(s) == BaseFrom(s, Len(s))
+Pos(C, st, s, e) == [file |-> BaseOf(C.F.name) \o ".abra", start |-> s, end |-> e,
                      line |-> Len(st.lines) + 1, col |-> s - st.off + 1, len |-> e - s]
 Lam(label) == "(z: int) -> println(\"" \o label \o "\")"
 LineNo(st) == ToString(Len(st.lines) + 1)
